@@ -73,7 +73,9 @@ impl CoordIndex {
             });
         });
 
-        index.max_matrix_index = index.direct_index.len().max(1) - 1;
+        // NOTE: a location specified as index reference is used as matrix index directly
+        let max_reference_index = index.reverse_index.keys().max().copied().unwrap_or(0);
+        index.max_matrix_index = (index.direct_index.len().max(1) - 1).max(max_reference_index);
 
         let start_offset = index.direct_index.len() * index.direct_index.len();
         // NOTE promote custom locations to the index to use usize outside
